@@ -36,6 +36,10 @@ CHECKS = {
     text="Bounded exploration of connection-event histories on the real lifecycle layers (YowNetworkLayer, authentication + all protocol layers, AxolotlControlLayer, iq layer with the keep-alive thread body run inline, YowInterfaceLayer, YowStack.loop) with dispatcher and Noise/coder doubles. The solver enumerates every history up to length 6 (7 after an establishment prefix; thorough 7/9/10) over connect request, connected, socket error, peer close, late close callback, disconnect request, success, failure, three stream-error kinds, ping tick, pong, x reconnect option; a ghost model of the statement is asserted after every event (one up/one down announcement, one login attempt, authed once, delivery + close on failure/stream error, reconnect iff non-conflict and option on, keep-alive timeout iff a ping is unanswered, no write while down, state agreement).",
     note="Trusted: dispatcher double reports disconnect() through onDisconnected like the real dispatchers; loop runs after every event; handshake/transport are outside (C04).",
     technique="solver-driven bounded model checking of event histories on the real layers (choice variables decided by z3) against a ghost model; concrete replay"),
+ "C17": dict(cat="model_checking", design="4/C17",
+    text="Real AxolotlManager, real sqlite stores and real python-axolotl for three parties (me, the contact under identity A, the contact after reinstall under identity B). The solver enumerates every history of <=3 (thorough 4) events over bundle A/B, first message A/B, outgoing message, restart, x auto-trust; a ghost pin is compared after each step with the stored identity, with the trust decision for the other identity and with who can really decrypt what I send (refused change: key unchanged, nothing readable under the new identity; auto-trust: key replaced and messaging resumes; pin survives restart). A layer step checks getKeysFor / send behaviour for an untrusted identity.",
+    note="Trusted: python-axolotl ratchets (real, concrete; random padding fixed to 1 byte to stay clear of python-axolotl's block-aligned padding defect), sqlite. Histories beyond the bound are outside.",
+    technique="solver-driven bounded model checking of identity-change histories on the real manager/store/ratchets (choice variables decided by z3); concrete replay"),
  "C18": dict(cat="exploration", design="4/C18",
     text="Exhaustive solver-driven enumeration on the real YowStack / YowStackBuilder / YowLayer / YowParallelLayer with recording layers: every stack shape up to depth 4 (thorough 6) with plain layers and parallel groups, class / implicit-tuple / instance declaration, both order conventions; send/receive fan-out and order against a reference model; every emitter x consumer position for emitted and broadcast events, detached (through the real loop()) and normal; getLayerInterface by class; all 16 getDefaultLayers and 64 getDefaultStack argument combinations; builder push/pop sequences.",
     note="Trusted: reference model of the documented semantics (sibling delivery for events emitted inside a group is only required to be at-most-once). Group sizes 2,3 (quick) / 1,2,4 (thorough, deeper stacks 2 only).",
